@@ -32,7 +32,7 @@ BASE = {'indent_with_tabs': '0', 'code_width': '0', 'use_options_overriding_for_
 ADD_PROMOTED = {'sp_case_label', 'sp_macro', 'sp_macro_func'}   # sp_macro*: "Macro stuff can only return IGNORE, ADD, or FORCE";                    # log_rule("sp_case_label"); return options::sp_case_label() | IARF_ADD
 REMOVE_TO_FORCE = {'sp_before_ellipsis', 'sp_return'}            # "The value REMOVE will be overridden with FORCE" (number before '...')
 # rules whose documented meaning is not the plain 0/1 gap of the value (they defer to an original-spacing or number option)
-SKIP_BEHAVIOUR = {'sp_before_nl_cont', 'sp_before_tr_cmt', 'sp_before_tr_emb_cmt', 'sp_num_before_tr_cmt', 'sp_num_before_tr_emb_cmt',
+SKIP_BEHAVIOUR = {'sp_before_nl_cont', 'sp_before_tr_emb_cmt', 'sp_num_before_tr_cmt', 'sp_num_before_tr_emb_cmt',
                   'sp_before_emb_cmt', 'sp_after_emb_cmt', 'sp_inside_braces_oc_dict'}
 
 _REG = {}
@@ -85,6 +85,8 @@ def judge(case):
             l1, c1, l2, c2, rule, av, min_sp, forced, t1, t2 = _json.loads(ln)
         except ValueError:
             continue
+        if rule == 'sp_num_before_tr_cmt' and tokrel.is_cmt(t2):
+            rule = 'sp_before_tr_cmt'       # (the count option is logged last; the value handed on is sp_before_tr_cmt's, min_sp the count)
         if rule not in reg:
             continue
         v = cfgd.get(rule, reg[rule]['default'])
@@ -150,7 +152,9 @@ def judge(case):
                                                 'in': ['%s=%s (returned %s)' % (rule, v, NAME.get(av, av))], 'out': [repr(text[max(0, ia - 10):])],
                                                 'first_in': rule, 'first_out': bad}))
             continue
-        if rule in SKIP_BEHAVIOUR or tokrel.is_cmt(t1) or tokrel.is_cmt(t2) or t2 in ('NEWLINE', 'NL_CONT') or t1 in ('NEWLINE', 'NL_CONT'):
+        # (pairs next to comments are not measured - except the gap in front of a trailing comment when sp_before_tr_cmt governs it)
+        tr_cmt = rule == 'sp_before_tr_cmt' and tokrel.is_cmt(t2) and not tokrel.is_cmt(t1) and t1 not in ('NEWLINE', 'NL_CONT')
+        if rule in SKIP_BEHAVIOUR or tokrel.is_cmt(t1) or (tokrel.is_cmt(t2) and not tr_cmt) or t2 in ('NEWLINE', 'NL_CONT') or t1 in ('NEWLINE', 'NL_CONT'):
             continue
         a = pos.get((l1, c1))
         b = pos.get((l2, c2))
